@@ -9,6 +9,7 @@ import (
 func init() {
 	acts["aka_set"] = actAkaSet
 	acts["aka_mac"] = actAkaMac
+	exclusiveActs["aka_mac"] = true // its back-to-back computations under changing keys must not interleave with another worker's
 	acts["aka_prf"] = actAkaPrf
 	acts["aka_new"] = actAkaNew
 	acts["aka_setattr"] = actAkaSetAttr
@@ -142,6 +143,17 @@ func actAkaMac(e *Env, a J) J {
 		// a code that was returned stays what it was when the packet computes another one (under another key)
 		_, _ = p.CalcEapAkaPrimeAtMAC(fillPattern("seeded", 32, 123))
 		o["stable"] = string(mac) == string(first)
+		// "a different value if the key differs": the caller changes one bit of its key buffer in place and asks again, then
+		// changes it back (the act runs exclusively, no other computation comes between)
+		if kb := []byte(gox(a, "key")); len(kb) > 0 {
+			kb[len(kb)/2] ^= 0x10
+			m3, err3 := p.CalcEapAkaPrimeAtMAC(kb)
+			kb[len(kb)/2] ^= 0x10
+			m4, err4 := p.CalcEapAkaPrimeAtMAC(kb)
+			o["keysens"] = err3 == nil && err4 == nil && string(m3) != string(first) && string(m4) == string(first)
+		} else {
+			o["keysens"] = true
+		}
 	}
 	return o
 }
@@ -152,6 +164,11 @@ func actAkaPrf(e *Env, a J) J {
 	o["haskeys"] = kEncr != nil || kAut != nil || kRe != nil || msk != nil || emsk != nil
 	if err == nil {
 		o["k_encr"], o["k_aut"], o["k_re"], o["msk"], o["emsk"] = octOf(kEncr), octOf(kAut), octOf(kRe), octOf(msk), octOf(emsk)
+		e.hold("K_encr", kEncr)
+		e.hold("K_aut", kAut)
+		e.hold("K_re", kRe)
+		e.hold("MSK", msk)
+		e.hold("EMSK", emsk)
 	}
 	return o
 }
